@@ -66,8 +66,10 @@ def fmtAtKey (s : St) (v : Val) : Except Exc Val :=
       then .error ⟨x.name, "~Unable to format … because " ++ x.msg⟩ else .error x
   | .ok r => .ok r
 
-/-- `cof.control_of_flow_instruction` for `pypyr.steps.call` / `pypyr.steps.jump`. -/
+/-- `cof.control_of_flow_instruction` for `pypyr.steps.call` / `pypyr.steps.jump`. Its
+    `assert context, (...)` fails on an EMPTY context (a dict without keys is falsy). -/
 def cofStep (key : String) (isCall : Bool) : Body := fun s =>
+  if s.ctx.isEmpty then raiseNew s "AssertionError" "context param must exist for ControlOfFlowStep." else
   match assertKeyHasValue s key ("pypyr.steps." ++ key) with
   | .error (n, m) => raiseNew s n m
   | .ok original =>
@@ -188,6 +190,11 @@ def applySets (ctx : Ctx) : List (Val × Val) → Ctx
   | (.str k, v) :: rest => applySets (Ctx.set ctx k v) rest
   | _ :: rest => applySets ctx rest
 
+/-- `str(cls(msg))` for the exception classes the probe raises: `KeyError.__str__` is the repr of its
+    single argument, every other class gives the argument itself. -/
+def excStr (name msg : String) : String :=
+  if name == "KeyError" then strRepr msg else msg
+
 /-- The harness probe step `vprobe` (harness/probe/vprobe.py), statement by statement:
     count the execution, record an event, apply raw `set`/`del`/`clearAll`, then fail as scripted. -/
 def probeStep : Body := fun s =>
@@ -229,7 +236,7 @@ def probeStep : Body := fun s =>
         | some v => v
         | none => (dictGet? cfg (.str "failRest")).getD .none
       match scripted with
-      | .str name => raiseNew s1 name msg
+      | .str name => raiseNew s1 name (excStr name msg)
       | _ => (s1, .ok)
   | _ => raiseNew s "pypyr.errors.KeyNotInContextError" "~p not found in the pypyr context."
 
